@@ -320,6 +320,11 @@ class Gen(object):
     def _bool(self, d):
         rng = self.rng
         c = rng.random()
+        own_local = [i for i in self.cur_form['inputs'] if i.get('enum') == 'L1']
+        if own_local and rng.chance(0.2):
+            # "is this statement's own code W?": compared with this copy's own constant
+            i = rng.pick(own_local)
+            return ['iseq', ['in', self._ref(self.cur_form, i['name']), 'L1'], 'L1', rng.pick(ENUMS['L1'])]
         if d <= 0 or c < 0.35:
             ins = self._inputs_of_type(('bool',))
             ls = self._lines_of_type(('bool',))
